@@ -1,0 +1,30 @@
+//go:build verif
+
+package consensus
+
+import (
+	"github.com/nspcc-dev/dbft"
+	"github.com/nspcc-dev/neo-go/pkg/util"
+)
+
+// VerifSetTimer replaces the dBFT timer of a not yet started service, so that
+// a harness can own time. It returns false if s is not this package's service.
+func VerifSetTimer(s Service, t dbft.Timer) bool {
+	srv, ok := s.(*service)
+	if !ok {
+		return false
+	}
+	srv.dbft.Config.Timer = t
+	srv.dbft.Context.Config.Timer = t
+	return true
+}
+
+// VerifContext gives read-only access to the dBFT context of the service (for
+// state hashing in a harness).
+func VerifContext(s Service) *dbft.Context[util.Uint256] {
+	srv, ok := s.(*service)
+	if !ok {
+		return nil
+	}
+	return &srv.dbft.Context
+}
